@@ -12,37 +12,111 @@ TITLE = "pickled / interrupted searches resume faithfully"
 COQ_PROPS = "Props/C17.v"
 COQ_RUN = ("Searcher.SlicingRun", "run_c17")
 GEN_TARGETS = []
-N = {"quick": 3000, "thorough": 15000}
+N = {"quick": 6000, "thorough": 24000}
 CASE_CPU_SECONDS = 30
 RULE = (
-    "a universe (word universe with any pack, or random table universe), a rule database (RuleDB, "
-    "RuleDBForgetStrategy, RuleDBForest with/without reverse), perc, and a script of successive auto-search calls "
-    "(time limit, clock advance per has_specification call). Part A: the real _auto_search_rules runs under a fake "
-    "clock (packets processed + scripted advances); the packet counts at which has_specification is consulted and "
-    "the outcome of every call (found / ExceededMaxtimeError / SpecificationNotFound) are compared with the model. "
-    "Part B (oracle): for several prefix lengths k the searcher is pickled after exactly k packets, the copy must "
-    "equal the original, both are continued with identical calls and must produce identical ruledb.add traces, class "
-    "databases and answers, equal to the uninterrupted run; in thorough tier every k. Specifications finally "
-    "returned after interruptions are counted against brute force (word universes). Non-trivial: at least one "
-    "interruption or pickling point strictly inside the run and >= 8 packets; distinct = distinct case."
+    "a universe (word universe with any pack, or table universe: random_universe, or - 85% - the best connected of "
+    "three rich_universe tables with at most one strategy-verified class; 70% of the table runs are `blind`: the real "
+    "has_specification is called, side effects included, but the search is told `not yet`, so that the whole "
+    "universe is worked through to queue exhaustion), a rule database (RuleDB, RuleDBForgetStrategy, RuleDBForest with/without reverse), perc, and a "
+    "script of successive auto-search calls (time limit, clock advance per has_specification call), with or without "
+    "pickling the searcher between two calls. Part A: the real _auto_search_rules runs under a fake clock (packets "
+    "processed + scripted advances); (1) the packet counts at which has_specification is consulted and the outcome "
+    "of every call (found / ExceededMaxtimeError / SpecificationNotFound) are compared with the control-flow model; "
+    "(2) table universes: the EVENT TRACE of every call (packets handed out by the real DefaultQueue, and per packet "
+    "the ruledb.add calls, searcher-issued classdb.set_empty, classqueue.add/set_not_inferrable/set_stop_yielding) "
+    "and the final class database / tried_to_verify / symmetry_expanded / inferral_expanded are compared with the "
+    "packet-level state machine (Searcher/Step.v: C04 model + C16 queue model) run on the same table, the same "
+    "script and the recorded is_verified / has_specification answers; (3) oracle, all universes: the concatenated "
+    "traces of the slices equal the trace of ONE uninterrupted _expand_classes_for run that consults "
+    "has_specification at the same packet counts, and so do the final states; every packet handed out is "
+    "processed. Part B (oracle): for several prefix lengths k the searcher is pickled after exactly k packets, the "
+    "copy must equal the original and have the sharing of the original object graph, original, copy and a copy "
+    "whose _pruned_dict cache was dropped are continued with identical calls and must produce identical ruledb.add "
+    "traces, class databases and answers, equal to the uninterrupted run; in thorough tier every k. Specifications "
+    "finally returned after interruptions are counted against brute force (word universes). Non-trivial: at least "
+    "one interruption or pickling point strictly inside the run and >= 8 packets; distinct = distinct case."
 )
 TRUSTED = [
-    "modelled, not verified: comb_spec_searcher.py _auto_search_rules/_expand_classes_for control flow — "
-    "Searcher/Slicing.v tied by Part A; the fake clock replaces time.time in that module only",
+    "modelled, not verified: comb_spec_searcher.py _auto_search_rules/_expand_classes_for (control flow: "
+    "Searcher/Slicing.v; state transformation: Searcher/Step.v on top of the C04, C15 and C16 models) tied by Part A; "
+    "the fake clock replaces time.time in that module only",
+    "the logging subclasses of this plugin (CountingQueue, LogDB_*, LogClassDB) and the instance-level wrappers of "
+    "has_specification / _expand / ruledb.is_verified",
     "pickle's object-graph fidelity (shared lists in ClassDB, ruledb->searcher back reference) is Python runtime "
-    "behaviour outside any Gallina model: covered by Part B only",
+    "behaviour outside any Gallina model (Searcher/Pickle.v makes the sharing explicit and shows the value-level "
+    "model cannot see it): covered by Part B and by the identity checks after every unpickling only",
+    "ruledb.is_verified and has_specification are not modelled: their answers are recorded from the real run and "
+    "replayed (the theorems quantify over all answer sequences); the engines behind RuleDBBase's _pruned_dict cache "
+    "are abstract in Searcher/Cache.v, their idempotence contract is checked on the real code at every pickling point",
 ]
 ASSUMPTIONS = [
     "the searcher's state after k packets is a deterministic function of the universe, the database flavour and the "
-    "history of has_specification() calls (pruning databases mark labels verified when asked) — validated by Part B",
+    "history of has_specification() calls (pruning databases mark labels verified when asked) — validated by Parts A3 and B",
+    "C17_cache_transparent assumes that recomputing the pruned dictionary twice in a row changes nothing observable "
+    "(recompute_idem) — checked on the real code at every pickling point",
+    "no class of the package customises pickling (__getstate__/__setstate__/__reduce__/__reduce_ex__/__getnewargs__): "
+    "grepped on every run and reported in the evidence (extra_checks, information only); with such a hook the model's "
+    "dump/load is no longer a description of what pickle writes and only Part B / the pickling between calls decide",
 ]
 
 PERCS = [1, 2, 5, 10, 20, 25, 50, 100]
 
 
+def _reach(u):
+    """number of classes the table lets a search reach from the start class (workable expanding strategies only)"""
+    p = u["pack"]
+    sids = list(p["initial"]) + list(p["inferral"]) + [x for l in p["expansion"] for x in l]
+    seen, todo = {u["start"]}, [u["start"]]
+    while todo:
+        c = todo.pop()
+        for sid in sids:
+            st = u["strats"][sid]
+            ents = []
+            if st["kind"] == "F":
+                for it in st["apply"].get(str(c), []):
+                    e = u["strats"][it["sid"]]["apply"].get(str(c if it["on"] is None else it["on"]))
+                    if e is not None and u["strats"][it["sid"]]["flags"][3]:
+                        ents.append(e)
+            elif str(c) in st["apply"] and st["flags"][3]:
+                ents.append(st["apply"][str(c)])
+            for e in ents:
+                for k in e["children"]:
+                    if k not in seen and not u["empty"][k]:
+                        seen.add(k)
+                        todo.append(k)
+    return len(seen)
+
+
 def gen(rng, tier):
     while True:
         case = runs.gen_case(rng, table_fraction=0.45)
+        if case["kind"] == "table" and rng.random() < 0.85:
+            from harness.universes import table_c04 as R
+
+            x = rng.random()
+            regime = "strong" if x < 0.85 else "weak" if x < 0.95 else "wild"
+            # of three candidates the one where most classes can be reached from the start class
+            u = max((R.rich_universe(rng, regime=regime, ncls=rng.randint(4, 10)) for _ in range(3)), key=_reach)
+            # long searches: few classes are verified by a strategy (none at all in 40% of the universes), so
+            # that a specification is found late or never and the queue is worked through
+            for v in u["pack"]["ver"]:
+                ap = u["strats"][v]["apply"]
+                if u["strats"][v]["kind"] != "V":
+                    continue
+                keep = [] if rng.random() < 0.4 else rng.sample(sorted(ap), min(len(ap), 1))
+                for c in list(ap):
+                    if c not in keep:
+                        del ap[c]
+            if rng.random() < 0.15:
+                u["pack"]["iterative"] = 1
+            case["universe"] = u
+        if case["kind"] == "table" and rng.random() < 0.7:
+            # the search is told "no specification yet" whatever the database answers (the real has_specification is
+            # still called, with its side effects): the control flow and the state machine are driven through the
+            # whole universe, to queue exhaustion, instead of stopping at the first specification
+            case["blind"] = True
+        case["pickle_between"] = rng.random() < 0.4
         case["perc"] = rng.choice(PERCS)
         ncalls = rng.randint(1, 4)
         calls = []
@@ -57,6 +131,29 @@ def gen(rng, tier):
 
 
 # ------------------------------------------------------------------ instrumented classes
+class TraceCtx:
+    """One event log shared by the queue, the rule database and the class database of ONE searcher
+    (and of its unpickled copy: pickle keeps identities inside one dump).  Events, C04 numbering:
+      [0, start, ends, sid, parent]  ruledb.add          [1, label, v]  classdb.set_empty by the searcher
+      [2, l] classqueue.add   [3, l] set_not_inferrable  [4, l] set_stop_yielding   [10, l] set_verified
+      [20, label, sids, inferral]  packet handed out by next(queue)      [21]  next(queue) raised StopIteration
+    In table universes strategies / classes are their table ids, otherwise their str()."""
+
+    def __init__(self, table):
+        self.table = table
+        self.events = []
+        self.answers = []     # ruledb.is_verified answers, in call order (not those has_specification asks for)
+
+    def __eq__(self, other):
+        return isinstance(other, TraceCtx) and vars(self) == vars(other)
+
+    __hash__ = None
+
+
+def _sid(ctx, strategy):
+    return getattr(strategy, "sid", -1) if ctx.table else str(strategy)
+
+
 def _queue_class():
     from comb_spec_searcher.class_queue import DefaultQueue
 
@@ -72,21 +169,95 @@ def _queue_class():
             self.handed = 0
             self.dry_at = None
             self.events = None      # Part A: list of ("hand" | "isv" | "exp", label[, answer])
+            self.ctx = None
+            self.inside = 0         # calls the queue makes on itself are not observations
+            self.before_next = None
 
         def __next__(self):
+            if self.before_next is not None:
+                self.before_next(self)
+            self.inside += 1
             try:
                 p = super().__next__()
             except StopIteration:
                 self.dry_at = self.handed
+                if self.ctx is not None:
+                    self.ctx.events.append([21])
                 raise
+            finally:
+                self.inside -= 1
             self.handed += 1
             if self.events is not None:
                 self.events.append(("hand", p[0]))
+            if self.ctx is not None:
+                self.ctx.events.append([20, p.label, [_sid(self.ctx, x) for x in p.strategies], int(bool(p.inferral))])
             return p
+
+        def _obs(self, tag, label):
+            if self.ctx is not None and not self.inside:
+                self.ctx.events.append([tag, label])
+
+        def add(self, label):
+            self._obs(2, label)
+            super().add(label)
+
+        def set_not_inferrable(self, label):
+            self._obs(3, label)
+            super().set_not_inferrable(label)
+
+        def set_stop_yielding(self, label):
+            self._obs(4, label)
+            self.inside += 1
+            try:
+                super().set_stop_yielding(label)
+            finally:
+                self.inside -= 1
+
+        def set_verified(self, label):
+            self._obs(10, label)
+            self.inside += 1
+            try:
+                super().set_verified(label)
+            finally:
+                self.inside -= 1
 
     CountingQueue.__module__ = __name__
     CountingQueue.__qualname__ = "CountingQueue"
     return CountingQueue
+
+
+def _classdb_class():
+    from comb_spec_searcher.class_db import ClassDB
+
+    global LogClassDB
+    try:
+        return LogClassDB
+    except NameError:
+        pass
+
+    class LogClassDB(ClassDB):  # pylint: disable=redefined-outer-name
+        """logs the set_empty calls that come from outside (not those is_empty makes itself)"""
+
+        def __init__(self, cls):
+            super().__init__(cls)
+            self.ctx = None
+            self.depth = 0
+
+        def is_empty(self, comb_class, label=None):
+            self.depth += 1
+            try:
+                return super().is_empty(comb_class, label)
+            finally:
+                self.depth -= 1
+
+        def set_empty(self, key, empty=True):
+            if self.ctx is not None and self.depth == 0:
+                self.ctx.events.append([1, key, int(bool(empty))])
+            return super().set_empty(key, empty)
+
+    LogClassDB.__module__ = __name__
+    LogClassDB.__qualname__ = "LogClassDB"
+    return LogClassDB
 
 
 def _db_class(name):
@@ -101,14 +272,37 @@ def _db_class(name):
         def __init__(self, *a, **k):
             super().__init__(*a, **k)
             self.log = []
+            self.ctx = None
+            self.quiet = 0
 
         def add(self, start, ends, rule):
             self.log.append([start, list(ends), str(rule.strategy)])
+            if self.ctx is not None:
+                cls = rule.comb_class
+                self.ctx.events.append([0, start, list(ends), _sid(self.ctx, rule.strategy),
+                                        cls.n if self.ctx.table else str(cls)])
             super().add(start, ends, rule)
+
+        def is_verified(self, label):
+            a = super().is_verified(label)
+            if self.ctx is not None and not self.quiet:
+                self.ctx.answers.append(int(bool(a)))
+            return a
+
+        def has_specification(self):
+            self.quiet += 1
+            try:
+                return super().has_specification()
+            finally:
+                self.quiet -= 1
 
         def get_specification_rules(self, **kwargs):
             kwargs["minimization_time_limit"] = 0
-            return super().get_specification_rules(**kwargs)
+            self.quiet += 1
+            try:
+                return super().get_specification_rules(**kwargs)
+            finally:
+                self.quiet -= 1
 
     LogDB.__module__ = __name__
     LogDB.__qualname__ = key
@@ -117,7 +311,7 @@ def _db_class(name):
     return LogDB
 
 
-def _make(case):
+def _make(case, ctx=None):
     from comb_spec_searcher import CombinatorialSpecificationSearcher
 
     dbc = _db_class(case["ruledb"])
@@ -129,8 +323,14 @@ def _make(case):
         u.pop("uid", None)
         uid = T.register(u)
         start, pack = T.start_class(uid, case.get("compressed", False)), T.make_pack(uid)
+    queue = _queue_class()(pack)
+    kwargs = {}
+    if ctx is not None:
+        classdb = _classdb_class()(type(start))
+        classdb.ctx = db.ctx = queue.ctx = ctx
+        kwargs["classdb"] = classdb
     return CombinatorialSpecificationSearcher(
-        start, pack, ruledb=db, classqueue=_queue_class()(pack), expand_verified=bool(case.get("expand_verified"))
+        start, pack, ruledb=db, classqueue=queue, expand_verified=bool(case.get("expand_verified")), **kwargs
     )
 
 
@@ -161,6 +361,14 @@ def _state(css):
     ]
 
 
+def _members(css):
+    """table universes: the members the model's final summary shows"""
+    cdb = css.classdb
+    return [[cdb.get_class(i).n for i in range(len(cdb.comb_class_list))],
+            [-1 if e is None else int(bool(e)) for e in cdb.empty_list],
+            sorted(css.tried_to_verify), sorted(css.symmetry_expanded), sorted(css.inferral_expanded)]
+
+
 PACKET_LIMIT = 120
 
 
@@ -180,58 +388,221 @@ def _drive(css, n0):
     return n, css.ruledb.log, _state(css), bool(css.has_specification())
 
 
+def _sharing_problem(css):
+    """the sharing of the object graph a searcher is born with (None = intact); attributes a refactoring
+    may rename are looked up defensively"""
+    cdb = css.classdb
+    for name in ("comb_class_list", "label_dict", "empty_list"):
+        objs = [getattr(o, name, None) for o in (cdb, getattr(cdb, "class_to_info", None), getattr(cdb, "label_to_info", None))]
+        objs = [o for o in objs if o is not None]
+        if any(o is not objs[0] for o in objs[1:]):
+            return "ClassDB.%s is no longer ONE object shared by the class database and its two views" % name
+    back = getattr(css.ruledb, "_searcher", css)
+    if back is not css:
+        return "ruledb._searcher no longer refers to the searcher the rule database belongs to"
+    for name in ("_rule_to_strategy", "_eqv_rule_to_strategy"):
+        d = getattr(css.ruledb, name, None)
+        linked = getattr(d, "_classdb", None)
+        if linked is not None and linked is not cdb:
+            return "the class database of ruledb.%s is a different object from searcher.classdb" % name
+    return None
+
+
+def _equiv_obs(css):
+    """what can be observed of a pruning database's equivalence database: the partition of the labels and
+    the verified set"""
+    eq = getattr(css.ruledb, "equivdb", None)
+    if eq is None:
+        return None
+    labels = range(len(css.classdb.comb_class_list))
+    part = sorted(sorted(l2 for l2 in labels if eq.equivalent(l, l2)) for l in labels)
+    return [part, [int(bool(eq.is_verified(l))) for l in labels]]
+
+
+def _recompute_idem_problem(css):
+    """Searcher/Cache.v's contract on the real code: filling the _pruned_dict cache twice in a row finds the
+    same dictionary, answers the same and leaves the observable equivalence database as it is"""
+    db = css.ruledb
+    if "_pruned_dict" not in vars(db) or not hasattr(type(db), "pruned_dict"):   # (hasattr on the instance would fill the cache)
+        return None
+    c = pickle.loads(pickle.dumps(css))
+    a1 = bool(c.has_specification())
+    d1 = {k: set(v) for k, v in c.ruledb.pruned_dict.items()}
+    o1 = _equiv_obs(c)
+    c.ruledb._pruned_dict = None  # pylint: disable=protected-access
+    a2 = bool(c.has_specification())
+    d2 = {k: set(v) for k, v in c.ruledb.pruned_dict.items()}
+    o2 = _equiv_obs(c)
+    if a1 != a2:
+        return "has_specification() answers %s with the cached pruned dictionary and %s after dropping the cache" % (a1, a2)
+    if d1 != d2 or o1 != o2:
+        return "recomputing the pruned dictionary right after computing it gives a different dictionary / equivalence database"
+    return None
+
+
+class _Stop(BaseException):
+    pass
+
+
+ERR = {"KeyError": 1, "IndexError": 6, "StrategyDoesNotApply": 7}
+
+
+class _Hooks:
+    """instance-level wrappers of Part A (closures: removed before the searcher is pickled)"""
+
+    def __init__(self, fake, blind=False):
+        self.fake = fake
+        self.blind = blind
+        self.cur = {"ds": [], "pts": None, "ans": None, "marks": None, "state": None, "members": None, "real_ans": []}
+        self.events = []          # ("hand" | "isv" | "exp", label[, answer]) for the lost-packet accounting
+        self.css = None
+
+    def install(self, css):
+        self.css = css
+        self.fake.css = css
+        cur, fake, events = self.cur, self.fake, self.events
+        orig_has = css.has_specification
+
+        def has_spec():
+            cur["pts"].append(css.classqueue.handed)
+            cur["marks"].append(len(css.classqueue.ctx.events))
+            # the state the call leaves behind, before a specification is extracted from it
+            cur["state"] = _state(css)
+            cur["members"] = _members(css) if css.classqueue.ctx.table else None
+            fake.extra += cur["ds"].pop(0) if cur["ds"] else 0
+            a = bool(orig_has())
+            cur["real_ans"].append(a)
+            if self.blind:
+                a = False
+            cur["ans"].append(a)
+            return a
+
+        css.has_specification = has_spec
+        # every work packet taken from the queue must be processed (expanded, or skipped because its
+        # class is verified): an interruption may only fall BETWEEN packets
+        css.classqueue.events = events
+        orig_expand, orig_isv = css._expand, css.ruledb.is_verified  # pylint: disable=protected-access
+
+        def log_expand(comb_class, label, strategies, inferral):
+            events.append(("exp", label))
+            return orig_expand(comb_class, label, strategies, inferral)
+
+        def log_isv(label):
+            a = orig_isv(label)
+            events.append(("isv", label, bool(a)))
+            return a
+
+        css._expand = log_expand  # pylint: disable=protected-access
+        css.ruledb.is_verified = log_isv
+
+    def remove(self):
+        css = self.css
+        if css is None:
+            return
+        css.__dict__.pop("has_specification", None)
+        css.__dict__.pop("_expand", None)
+        css.ruledb.__dict__.pop("is_verified", None)
+        css.classqueue.events = None
+        self.css = None
+
+
+def _sevents(ctx, events):
+    """[20 ..] / [21] markers + searcher-level events -> the sevents of Searcher/Step.v"""
+    out = []
+    for e in events:
+        if e[0] == 20:
+            out.append([0, e[1], e[2], e[3], []])
+        elif e[0] == 21:
+            out.append([1])
+        elif e[0] in (0, 1, 2, 3, 4):
+            if out and out[-1][0] == 0:
+                out[-1][4].append(e)
+            else:
+                out.append([9, e])        # an event outside any packet: never matches the model
+    return out
+
+
+def _table_part(case, answers):
+    from harness.props import c04 as P04
+
+    u = case["universe"]
+    mode = {"base": 0, "forget": 0, "forest_noreverse": 1, "forest": 2}[case["ruledb"]]
+    empty, strats, ver, sym = P04._enc_universe(u)  # pylint: disable=protected-access
+    p = u["pack"]
+    return [[mode, int(bool(case.get("expand_verified"))), 2 * u["ncls"] + 12, u["start"]], empty, strats, ver, sym,
+            list(p["inferral"]), list(p["initial"]), [list(x) for x in p["expansion"]], list(answers)]
+
+
+def _uninterrupted(case, points, total, crashed):
+    """ONE _expand_classes_for run (no slices, no time limit, no second call), consulting has_specification at
+    the packet counts `points`, stopped after `total` packets.  Returns (events, state, answers, exception name)."""
+    from comb_spec_searcher.exception import StrategyDoesNotApply
+
+    ctx = TraceCtx(case["kind"] == "table")
+    ref = _make(case, ctx)
+    n_init = len(ctx.events)
+    pts = list(points)
+    ans = []
+
+    def before_next(q):
+        while pts and pts[0] == q.handed:
+            pts.pop(0)
+            ans.append(bool(ref.has_specification()))
+        if q.handed >= total and not pts:
+            raise _Stop()
+
+    ref.classqueue.before_next = before_next
+    exc = None
+    try:
+        ref._expand_classes_for(1e18, None, 0, 0)  # pylint: disable=protected-access
+    except _Stop:
+        pass
+    except (KeyError, IndexError, StrategyDoesNotApply) as e:
+        if not crashed:
+            raise
+        exc = type(e).__name__
+    ref.classqueue.before_next = None
+    while pts and exc is None:
+        pts.pop(0)
+        ans.append(bool(ref.has_specification()))
+    return [e for e in ctx.events[n_init:] if e[0] != 21], _state(ref), ans, exc
+
+
 def impl(case):
     import comb_spec_searcher.comb_spec_searcher as mod
-    from comb_spec_searcher.exception import ExceededMaxtimeError, SpecificationNotFound
+    from comb_spec_searcher.exception import ExceededMaxtimeError, SpecificationNotFound, StrategyDoesNotApply
 
     out = {"problems": []}
-    # ---------------- Part A: control flow under the fake clock
+    table = case["kind"] == "table"
+    # ---------------- Part A: control flow and event trace under the fake clock
     random.seed(case.get("tree_seed", 0))
-    css = _make(case)
+    ctx = TraceCtx(table)
+    css = _make(case, ctx)
+    n_init = len(ctx.events)
+    init_events = [e for e in ctx.events if e[0] in (0, 1, 2, 3, 4)]
     fake = _FakeTime()
-    fake.css = css
-    points, answers_all = [], []
-    orig_has = css.has_specification
-    cur = {"ds": [], "pts": None, "ans": None}
-
-    def has_spec():
-        cur["pts"].append(css.classqueue.handed)
-        fake.extra += cur["ds"].pop(0) if cur["ds"] else 0
-        a = bool(orig_has())
-        cur["ans"].append(a)
-        return a
-
-    css.has_specification = has_spec
-    # every work packet taken from the queue must be processed (expanded, or skipped because its
-    # class is verified): an interruption may only fall BETWEEN packets
-    events = css.classqueue.events = []
-    orig_expand, orig_isv = css._expand, css.ruledb.is_verified  # pylint: disable=protected-access
-
-    def log_expand(comb_class, label, strategies, inferral):
-        events.append(("exp", label))
-        return orig_expand(comb_class, label, strategies, inferral)
-
-    def log_isv(label):
-        a = orig_isv(label)
-        events.append(("isv", label, bool(a)))
-        return a
-
-    css._expand = log_expand  # pylint: disable=protected-access
-    css.ruledb.is_verified = log_isv
+    hooks = _Hooks(fake, bool(case.get("blind")))
+    hooks.install(css)
+    cur = hooks.cur
     real_time = mod.time
-    results, model_calls = [], []
+    results, model_calls, step_calls = [], [], []
+    all_points = []
     n_avail = 10 ** 6
     final_spec_counts = None
+    crashed = None
+    end_mark = n_init
     try:
         mod.time = fake
-        for maxt, ds in case["calls"]:
-            cur["ds"], cur["pts"], cur["ans"] = list(ds), [], []
+        ncalls = len(case["calls"])
+        for ci, (maxt, ds) in enumerate(case["calls"]):
+            cur["ds"], cur["pts"], cur["ans"], cur["marks"] = list(ds), [], [], []
+            ev0 = len(ctx.events)
             try:
                 rules = css._auto_search_rules(  # pylint: disable=protected-access
                     max_expansion_time=None if maxt < 0 else maxt, perc=case["perc"]
                 )
                 code = 0
-                if case["kind"] == "word":
+                if not table:
                     from comb_spec_searcher import CombinatorialSpecification
 
                     spec = CombinatorialSpecification(css.start_class, rules)
@@ -243,41 +614,102 @@ def impl(case):
             except SpecificationNotFound:
                 code = 2
                 n_avail = css.classqueue.handed
+            except (KeyError, IndexError, StrategyDoesNotApply) as e:
+                # a table universe that breaks the strategy contracts kills the expansion; the model dies the same way
+                if not table or cur["ans"][-1:] == [True]:
+                    if not table:
+                        raise
+                    code = 0
+                    out["problems"].append("table extraction: %s" % type(e).__name__)
+                else:
+                    code = 4
+                    crashed = type(e).__name__
             except (RuntimeError, ValueError, AssertionError) as e:
-                if case["kind"] != "table":
+                if not table:
                     raise
                 code = 0  # found, but concrete rules cannot be re-created in this table universe
                 out["problems"].append("table extraction: %s" % type(e).__name__)
             if css.classqueue.dry_at is not None:
                 n_avail = css.classqueue.dry_at
             k = cur["pts"][-1] if cur["pts"] else css.classqueue.handed
-            results.append([code, k, list(cur["pts"])])
-            model_calls.append([maxt, list(ds), [int(a) for a in cur["ans"]]])
-            if code in (0, 2):
+            if code == 4:
+                k = css.classqueue.handed
+                end_mark = len(ctx.events)
+                cur["state"], cur["members"] = _state(css), _members(css)
+            else:
+                end_mark = cur["marks"][-1] if cur["marks"] else len(ctx.events)
+                results.append([code, k, list(cur["pts"])])
+            all_points.extend(cur["pts"])
+            model_calls.append([maxt, list(ds), [int(a) for a in cur["ans"]], int(code == 4)])
+            step_calls.append([code, k, list(cur["pts"]), _sevents(ctx, ctx.events[ev0:end_mark])])
+            if code in (0, 2, 4):
                 break
+            if case.get("pickle_between") and ci + 1 < ncalls:
+                # an interrupted search is saved and restored: the next call is made on the COPY
+                hooks.remove()
+                copy_ = pickle.loads(pickle.dumps(css))
+                if not copy_ == css:
+                    out["problems"].append("failing input: searcher unpickled between two calls (after %d packets) is != the original" % css.classqueue.handed)
+                sp = _sharing_problem(copy_)
+                if sp:
+                    out["problems"].append("failing input: after unpickling (%d packets): %s" % (css.classqueue.handed, sp))
+                css = copy_
+                ctx = css.classqueue.ctx
+                hooks.install(css)
     finally:
         mod.time = real_time
-        del css.has_specification
-        del css._expand  # pylint: disable=protected-access
-        del css.ruledb.is_verified
-        css.classqueue.events = None
-    lost = _lost_packets(events, bool(case.get("expand_verified")))
-    if lost is not None:
+        hooks.remove()
+    lost = _lost_packets(hooks.events, bool(case.get("expand_verified")))
+    if lost is not None and crashed is None:
         out["problems"].append(
             "failing input: work packet %d (label %d) was taken from the queue but never processed "
             "(an interruption fell inside a packet: the resumed search does not continue from where it stopped)" % lost
         )
-    out["out"] = results
+    total = css.classqueue.handed
+    # A3: one uninterrupted run with the same has_specification() consultations
+    sliced = [e for e in ctx.events[n_init:end_mark] if e[0] != 21]
+    ref_events, ref_state, ref_ans, ref_exc = _uninterrupted(case, all_points, total, crashed is not None)
+    if crashed is None:
+        flat_ans = list(cur["real_ans"])
+        if ref_events != sliced:
+            i = next((j for j, (x, y) in enumerate(zip(ref_events, sliced)) if x != y), min(len(ref_events), len(sliced)))
+            out["problems"].append(
+                "failing input: the event traces of the %d calls, concatenated, differ from the trace of the uninterrupted "
+                "run at event %d (%r instead of %r): the sliced search does not go through the same work"
+                % (len(step_calls), i, sliced[i] if i < len(sliced) else None, ref_events[i] if i < len(ref_events) else None)
+            )
+        elif ref_state != (cur["state"] or _state(css)):
+            out["problems"].append("failing input: the searcher after the interrupted calls differs from the uninterrupted run (class database / expanded sets)")
+        elif ref_ans != flat_ans:
+            out["problems"].append("failing input: has_specification answers %r in the sliced run and %r in the uninterrupted run" % (flat_ans, ref_ans))
+    elif ref_exc != crashed:
+        out["problems"].append("the sliced run died with %s, the uninterrupted run with %s" % (crashed, ref_exc))
     out["model_in"] = [n_avail, 100 // case["perc"], model_calls]
+    if table:
+        final = [ERR.get(crashed, 0) if crashed else 0, 0] + (cur["members"] or _members(css))
+        out["out"] = [results, [init_events, step_calls, final]]
+        out["model_in"].append(_table_part(case, ctx.answers))
+    else:
+        out["out"] = results
+    out["results"] = results
+    out["crashed"] = crashed
     out["final_counts"] = final_spec_counts
     out["truth"] = W.true_counts(W.start(case["start"]), 7) if case["kind"] == "word" else None
-    total = css.classqueue.handed
 
     # ---------------- Part B: pickle at k, continue both, compare with the uninterrupted run
     ref = _make(case)
-    npk, ref_trace, ref_state, ref_spec = _drive(ref, 0)
+    try:
+        npk, ref_trace, ref_state, ref_spec = _drive(ref, 0)
+    except (KeyError, IndexError, StrategyDoesNotApply):
+        if not table:
+            raise
+        out["packets"] = total
+        out["pickled_at"] = []
+        out["total_packets_A"] = total
+        return out
     out["packets"] = npk
-    ks = [k for k in case["pickle_at"] if k <= npk]
+    # pickling points beyond the end of a short search are folded back into it
+    ks = sorted({k if k <= npk else k % (npk + 1) for k in case["pickle_at"]})
     if case.get("every_k"):
         ks = list(range(npk + 1))
     out["pickled_at"] = ks
@@ -297,15 +729,30 @@ def impl(case):
         if _state(a) != _state(b):
             out["problems"].append("failing input: state differs right after unpickling at %d" % k)
             continue
+        sp = _sharing_problem(b)
+        if sp:
+            out["problems"].append("failing input: after unpickling at %d: %s" % (k, sp))
+            continue
+        ip = _recompute_idem_problem(a)
+        if ip:
+            out["problems"].append("failing input: after %d packets: %s" % (k, ip))
+        copies = [a, b]
+        if getattr(a.ruledb, "_pruned_dict", None) is not None:
+            # a third copy, without the derived cache: answers must not depend on its presence
+            c = pickle.loads(pickle.dumps(a))
+            c.ruledb._pruned_dict = None  # pylint: disable=protected-access
+            copies.append(c)
         res_ab = []
-        for x in (a, b):
+        for x in copies:
             if pending_query and x.has_specification():
                 res_ab.append((n, x.ruledb.log, _state(x), True))
             else:
                 res_ab.append(_drive(x, n))
-        ra, rb = res_ab
+        ra, rb = res_ab[0], res_ab[1]
         if ra != rb:
             out["problems"].append("failing input: original and unpickled copy diverge after pickling at %d" % k)
+        elif len(res_ab) > 2 and res_ab[2] != ra:
+            out["problems"].append("failing input: a copy made after %d packets without the _pruned_dict cache diverges from the original (answers depend on the cache)" % k)
         elif ra != (npk, ref_trace, ref_state, ref_spec):
             out["problems"].append(
                 "failing input: run pickled at %d differs from the uninterrupted run (packets %s, trace %s, state %s, spec %s)"
@@ -357,9 +804,9 @@ def oracle(case, res):
         if p.startswith("failing input"):
             return p
     # control-flow facts decided directly on the real run
-    n_avail, mult, calls = res["model_in"]
+    n_avail, mult, calls = res["model_in"][:3]
     prev_k = 0
-    for (code, k, pts), (maxt, ds, ans) in zip(res["out"], calls):
+    for (code, k, pts), (maxt, ds, ans) in zip(res["results"], [c[:3] for c in calls]):
         if any(p < prev_k for p in pts) or pts != sorted(pts):
             return "decision points %r go backwards (previous call stopped at %d)" % (pts, prev_k)
         if code == 0 and not (ans and ans[-1] == 1 and not any(ans[:-1])):
@@ -378,7 +825,7 @@ def oracle(case, res):
 def nontrivial(case, res):
     if res.get("packets", 0) < 8:
         return False
-    inter = any(c[0] == 1 for c in res.get("out", []))
+    inter = any(c[0] == 1 for c in res.get("results", []))
     inner = any(0 < k < res.get("packets", 0) for k in res.get("pickled_at", []))
     return inter or inner
 
@@ -389,17 +836,59 @@ def key(case):
 
 def classify(case, res):
     tags = [case["kind"], "db=" + case["ruledb"], "perc=%d" % case["perc"]]
-    for c in res.get("out", []):
+    for c in res.get("results", []):
         tags.append({0: "found", 1: "exceeded", 2: "notfound"}.get(c[0], "other"))
+    if case.get("pickle_between") and len(res.get("results", [])) > 1:
+        tags.append("pickled_between_calls")
+    if res.get("crashed"):
+        tags.append("expansion_died:" + str(res["crashed"]))
+    if case["kind"] == "table" and isinstance(res.get("out"), list) and len(res["out"]) == 2:
+        tags.append("step_machine_compared")
+        npk = sum(1 for c in res["out"][1][1] for e in c[3] if e[0] == 0)
+        tags.append("step_packets<=5" if npk <= 5 else "step_packets<=20" if npk <= 20 else "step_packets>20")
     tags.append("pickle_points=%d" % len(res.get("pickled_at", [])))
     return tags
 
 
+PICKLE_HOOKS = ("__getstate__", "__setstate__", "__reduce__", "__reduce_ex__", "__getnewargs__", "__getnewargs_ex__", "copyreg")
+
+
+def _pickle_hooks_in_package():
+    """source lines of the package that customise pickling (the model's dump/load = "pickle writes the instance
+    __dict__s" describes the code only while there are none)"""
+    import os
+    import re
+
+    import comb_spec_searcher
+
+    root = os.path.dirname(comb_spec_searcher.__file__)
+    pat = re.compile(r"\b(" + "|".join(PICKLE_HOOKS) + r")\b")
+    hits = []
+    for d, _, files in os.walk(root):
+        for f in files:
+            if f.endswith(".py"):
+                with open(os.path.join(d, f)) as fh:
+                    for i, line in enumerate(fh, 1):
+                        if pat.search(line) and not line.lstrip().startswith("#"):
+                            hits.append("%s:%d: %s" % (os.path.relpath(os.path.join(d, f), root), i, line.strip()[:80]))
+    return hits
+
+
 def extra_checks(ctx):
-    """thorough tier: pickle at EVERY prefix length for a few universes"""
-    if ctx.tier != "thorough":
-        return []
+    """every tier: no class customises pickling; thorough tier: pickle at EVERY prefix length for a few universes"""
     res = []
+    hits = _pickle_hooks_in_package()
+    # information, not a verdict: a harmless hook would not break the property; Part B and the pickling between
+    # calls are what decides.  Reported so that the evidence says whether Searcher/Pickle.v's reading of pickle
+    # ("writes the instance __dict__s") still describes the package.
+    res.append((
+        "information: classes of the package that customise pickling (none = Searcher/Pickle.v's dump/load "
+        "describes what pickle writes)",
+        True,
+        ("FOUND: " + "; ".join(hits[:5])) if hits else "grep for %s: nothing" % ", ".join(PICKLE_HOOKS),
+    ))
+    if ctx.tier != "thorough":
+        return res
     rng = random.Random(ctx.seed + 17)
     n = 0
     for case in gen(rng, "thorough"):
@@ -422,19 +911,56 @@ def extra_checks(ctx):
     return res
 
 
-TECHNIQUE = "Coq proof (control flow of the sliced search under an arbitrary clock: decisions only between packets, resumption from the packet count reached) + pickle/resume correspondence at the event-trace level"
+TECHNIQUE = (
+    "Coq proof (the searcher as a packet-level state machine built from the C04/C15/C16 models; its time-sliced "
+    "drivers under an arbitrary clock equal the uninterrupted iteration; control flow of the sliced search) + "
+    "extracted-model/implementation event-trace correspondence across interruptions and pickling + pickle/resume oracle"
+)
 LEVEL_TEXT = (
-    "C17_resume_from / C17_notfound_only_when_exhausted / C17_exceeded_only_past_limit prove, for every clock script, "
-    "time limit, perc and answer sequence, that _auto_search_rules consults has_specification only between work "
-    "packets at non-decreasing packet counts starting where the previous call stopped, reports a specification only "
-    "on (and at the first) true answer, raises SpecificationNotFound only once the queue is dry and "
-    "ExceededMaxtimeError only past the limit. The model is tied to the code by running the real method under a fake "
-    "clock. That a pickled searcher equals the original and continues through the same work is established by "
-    "pickling after k packets (sampled k in quick, every k in thorough), comparing equality, ruledb.add traces, class "
-    "database and answers of original, copy and uninterrupted run — a correspondence, not a theorem."
+    "State transformation (Searcher/Step.v, proofs StepProofs.v): `step` = one turn of the loop of _expand_classes_for "
+    "(next of the C16 queue model, get_class, the is_verified gate, _expand of the C04 model, the queue calls of the "
+    "packet applied to the queue); _expand_classes_for (with its last_label cache) and _auto_search_rules are "
+    "transcribed on top with the clock of Slicing.v. For every strategy table, database mode, pack, expand_verified, "
+    "perc, every script of successive auto_search calls (time limits, clock advances, has_specification answers), "
+    "every is_verified answer stream and every state satisfying the C04 invariant (C17_reachable: every state "
+    "reachable from __init__): C17_slicing_independent (the state after the calls, whatever they return or raise, is "
+    "`iterate step n` of the state before and the concatenated events of the calls are the events of that "
+    "uninterrupted iteration, n = number of next(queue) calls), C17_no_packet_lost (at every point of the sliced run "
+    "a packet handed out by the queue is followed by its complete processing and the application of its queue "
+    "calls), C17_packet_count (the clock's packet counter advances by exactly the number of packets among the events), "
+    "C17_dry_is_stable (a turn that finds the queue dry changes nothing from then on), C17_notfound_means_dry "
+    "(SpecificationNotFound only right after a next(queue) that found the queue dry), C17_resume_composes / "
+    "C17_calls_compose (iterate (k1+k2) = iterate k2 after iterate k1; a script split "
+    "anywhere), C17_queue_total, C17_state_is_members (step gives the same result on states with the same members "
+    "and its result is nothing but members - true by construction of step, made meaningful by the correspondence), "
+    "C17_pickle_roundtrip / C17_pickle_commutes (dump/load on the members, with the sharing of the object graph "
+    "explicit: load(dump s) = s, step and iterate commute with it at every point of a run), C17_cache_transparent / "
+    "C17_cache_invariant (RuleDBBase's _pruned_dict: histories of add / has_specification / is_verified that differ "
+    "only in where the cache was dropped answer the same, given that recomputing the dictionary is idempotent). "
+    "Control flow (Slicing.v): C17_resume_from / C17_notfound_only_when_exhausted / C17_exceeded_only_past_limit as "
+    "before. The models are tied to the code by running the real _auto_search_rules under a fake clock on table "
+    "universes and comparing, call by call, decision points, outcomes, the event trace (packets of the real queue, "
+    "ruledb.add, set_empty, queue calls) and the final members with the extracted state machine; an oracle compares "
+    "the sliced (and pickled-between-calls) run with one uninterrupted run and pickles at sampled (thorough: all) k."
 )
 LEVEL_NOTE = (
-    "Partial by nature: pickle's fidelity on the object graph is Python runtime behaviour no Gallina model can exhibit. "
-    "The searcher state is abstracted to the number of packets processed; its determinism is what Part B checks. "
-    "Trusted: Coq kernel, extraction, harness, the fake clock."
+    "Correspondence-only, by nature: (1) the fidelity of CPython's pickle on the object graph - that "
+    "pickle.loads(pickle.dumps(x)) rebuilds objects with the same __dict__s AND the same sharing (ClassDB's three lists "
+    "each shared by the ClassDB, its ClassToInfo and its LabelToInfo; ruledb._searcher pointing back at the searcher). "
+    "Searcher/Pickle.v models dump/load as the identity on the members with the sharing explicit, proves "
+    "load(dump s) = s and that step commutes with it (trivial in Gallina - which is the point) and shows by an Example "
+    "that the value-level model cannot distinguish a shared list from three equal copies; the harness checks object "
+    "identity after every unpickling and that original, copy and uninterrupted run go through the same work. (2) "
+    "ruledb.is_verified and has_specification are inputs of the model (answer streams): for the pruning databases "
+    "has_specification() marks labels verified, so the state is not a function of the packet count alone; the "
+    "theorems say `given the same answers`. The equivalence database / forest tables are therefore represented by "
+    "what ruledb.add is handed (events) and by the answers read back, not as data. (3) C17_cache_transparent is a "
+    "statement about the invalidate-on-add discipline over ABSTRACT engines (recompute, root_in); the idempotence "
+    "contract is checked on the real code at every pickling point, and a copy without the cache is run alongside "
+    "original and pickled copy. C17_state_is_members and the pickle theorems are true by construction of the model. "
+    "That the specification finally returned satisfies C01/C02 is those properties' theorems (they hold for every "
+    "reachable state); here the returned specification of word universes is counted against brute force. "
+    "An expansion that dies with an exception (table universes breaking the strategy contracts) is followed by the "
+    "model up to that point (outcome Crashed), the control-flow model skips such a call. "
+    "Trusted: Coq kernel, extraction, harness, the fake clock, the logging subclasses."
 )
